@@ -115,4 +115,46 @@ theorem classOf_iff_mem {g : TGraph} (hw : wf g = true) (m c : String) :
     classOf g m = some c ↔ (m, c) ∈ g.nodes :=
   classOf_iff_mem_aux g.nodes (wf_iff.1 hw).1 m c
 
+/-! ### a second `add_link` between the same pair replaces the relation -/
+
+theorem find_map_relink {a b s : String} : ∀ (l : List EdgeT), l.any (joins · a b) = true →
+    ((l.map (fun e => if joins e a b then (e.1, e.2.1, s) else e)).find? (joins · a b)).map (·.2.2) = some s
+  | [], h => by simp at h
+  | e :: l, h => by
+    by_cases he : joins e a b = true
+    · have : joins (e.1, e.2.1, s) a b = true := by simpa [joins] using he
+      simp [he, this]
+    · have he' : joins e a b = false := by simpa using he
+      have hl : l.any (joins · a b) = true := by simpa [he'] using h
+      simp only [List.map_cons, he', Bool.false_eq_true, if_false, List.find?_cons]
+      exact find_map_relink l hl
+
+/-- `add_link` between two nodes that are already joined replaces the relation: afterwards the pair carries the new one -/
+theorem relOf_addLink {g : TGraph} {a b : String} (ha : a ∈ verts g) (hb : b ∈ verts g) (s : String) :
+    relOf (addLink g a s b) a b = some s := by
+  unfold addLink relOf
+  simp only [ha, hb, and_self, if_true]
+  split
+  · rename_i h
+    exact find_map_relink g.edges h
+  · rename_i h
+    have hn : g.edges.find? (joins · a b) = none := by
+      rw [List.find?_eq_none]
+      intro e he hj
+      exact h (List.any_eq_true.2 ⟨e, he, hj⟩)
+    rw [List.find?_append, hn]
+    simp [joins]
+
+theorem classOf_addLink (g : TGraph) (a s b m : String) : classOf (addLink g a s b) m = classOf g m := by
+  unfold addLink classOf
+  split
+  · split <;> rfl
+  · rfl
+
+theorem verts_addLink (g : TGraph) (a s b : String) : verts (addLink g a s b) = verts g := by
+  unfold addLink verts
+  split
+  · split <;> rfl
+  · rfl
+
 end FimVerif.Query
